@@ -121,7 +121,9 @@ class Constant(Leaf):
 
     def __post_init__(self):
         super().__post_init__()
-        self.literal = self.literal or self.ast
+        # NOTE a literal may be falsy: `0`, `False`, `''`, ...
+        if (self.literal is None or self.literal == '') and self.ast is not None:
+            self.literal = self.ast
 
     def _parse(self, ctx: Ctx) -> Any:
         return ctx.constant(self.literal)
